@@ -756,6 +756,18 @@ def write_evidence(prop, tier, seed, results, lowered, undecided, violations, kn
         ],
         "wall_s": round(wall, 2), "violations": len(violations),
     }
+    if prop == "C05":
+        # coverage accounting for the run-time contract checks: sites in the tree vs. violation harnesses that drive them
+        sites = 0
+        for dp, _, fs in os.walk(os.path.join(REPO, "include")):
+            for f in fs:
+                if f.endswith(".hpp"):
+                    try:
+                        sites += len(re.findall(r"\bTETL_PRECONDITION(?:_SAFE)?\(", open(os.path.join(dp, f)).read()))
+                    except OSError:
+                        pass
+        ev["coverage"]["precondition_sites_in_tree"] = sites
+        ev["coverage"]["violation_harness_groups"] = sorted(set(x["group"] for x in groups if ".viol" in x["group"] or "viol_" in x["group"]))
     if proved_obl == 0 or proved_ok != proved_obl or undecided:
         # a proof-level claim needs every obligation discharged; otherwise say so honestly
         ev["level"] = "other"
